@@ -100,10 +100,27 @@ def resize(repo: Repo) -> List[Ob]:
     P = ("C10",)
     PC = ("C10", "C17", "C07")     # a cut through occupied levels is also an un-rejected invalid request and an invalid stored state
     n_commit = 0
+    targets = [repo.func(q) for q in RESIZERS]
+    # private helpers of the same classes that commit `<x>.dimensions = <their parameter>` are resize bodies too
     for q in RESIZERS:
-        fi = repo.func(q)
+        ci = repo.func(q).cls
+        for mname, m in ci.methods.items():
+            if m in targets or not mname.startswith("_") or mname.startswith("__"):
+                continue
+            ps_ = [p_ for p_ in m.params if p_ not in ("self", "cls")]
+            if ps_ and any(isinstance(a_, ast.Assign) and any(isinstance(t_, ast.Attribute) and t_.attr in ("dimensions", "_dimensions") for t_ in a_.targets) and src(a_.value) in ps_
+                           for a_ in walk_no_nested(m.orig or m.node)):
+                targets.append(m)
+    for fi in targets:
+        q = fi.qualname
         fn = fi.node
-        nd = fi.params[1] if fi.params[0] == "self" else fi.params[0]
+        nd = None
+        for p_ in fi.params:
+            if p_ not in ("self", "cls") and any(isinstance(a_, ast.Assign) and src(a_.value) == p_ and any(isinstance(t_, ast.Attribute) and t_.attr in ("dimensions", "_dimensions") for t_ in a_.targets) for a_ in walk_no_nested(fn)):
+                nd = p_
+        if nd is None:
+            nd = fi.params[1] if fi.params and fi.params[0] == "self" and len(fi.params) > 1 else (fi.params[0] if fi.params else "new_dimensions")
+        label_only = any(isinstance(x, ast.Assert) and src(x.test).replace(" ", "") == "isinstance(self.state,int)" for x in fn.body)
         # symbols
         syms: Dict[str, str] = {nd: "nd"}
         for n in walk_no_nested(fn):
@@ -115,11 +132,14 @@ def resize(repo: Repo) -> List[Ob]:
                 syms[n.targets[0].id] = "nq"
         for d in ("self.dimensions", "self.fock.dimensions", "fock.dimensions"):
             syms[d] = "dim"
-        if q == "Fock.resize":
+        for n in walk_no_nested(fn):
+            if isinstance(n, ast.Assign) and isinstance(n.targets[0], ast.Name) and src(n.value) in ("self.dimensions", "self.fock.dimensions", "fock.dimensions"):
+                syms[n.targets[0].id] = "dim"
+        if fi.cls is not None and fi.cls.name == "Fock":
             syms["self.state"] = "nq"       # the label *is* the highest occupied level
             syms["self._num_quanta"] = "nq"
         cfg = CFG(fn)
-        lt = LevelTracker(["self"], {"self": frozenset({1, 2})} if q != "Fock.resize" else {})
+        lt = LevelTracker(["self"], {"self": frozenset({0})} if label_only else ({"self": frozenset({1, 2})} if not (fi.cls is not None and fi.cls.name == "Fock") else {}))
 
         def atom(e, truth, st):
             safe, grow, sw, dw, lv = st
@@ -191,8 +211,8 @@ def resize(repo: Repo) -> List[Ob]:
             good = (mode is None or (isinstance(mode, ast.Constant) and mode.value == "constant")) and (cv is None or (isinstance(cv, ast.Constant) and cv.value == 0))
             (obs.append(ok("RESIZE", fi, f"pad#{i}", P, c, "grown levels are filled with zeros")) if good else
              obs.append(bad("RESIZE", fi, f"pad#{i}", P, c, "growing the Fock space pads with something other than zeros: population appears in levels that were empty")))
-    if n_commit < 12:
-        raise AnalysisError(f"RESIZE: {n_commit} dimension commits (floor 12)")
+    if n_commit < 6:
+        raise AnalysisError(f"RESIZE: {n_commit} dimension commits (floor 6)")
     # routing of the composite entry: reorder(fock) precedes the product-space resize (fock.index[1] is used as axis)
     ce = repo.func("CompositeEnvelope.resize_fock")
     cfg = CFG(ce.node)
